@@ -60,17 +60,22 @@ _PNOTE = ("Trusted: Lean kernel; Spec/Grammar*.lean as the formal reading of the
           "every byte string on the hand-written model; its transfer to /repo is a seeded, systematic but finite correspondence.")
 TEXT["C07"] = {
     "level": "Theorem accept3_iff: for every level and EVERY list of bytes the model's decoder accepts iff the string is in the grammar wf3 "
-             "(proved by induction over the token list with the core splitOn lemmas and a fold invariant; no bound on length). Correspondence: "
-             "systematic single-edit neighbourhoods of seeded vectors + random bytes, accept/reject compared with model and grammar oracle.",
+             "(proved by induction over the token list with the core splitOn lemmas and a fold invariant; no bound on length); delegation: the "
+             "model's flattened decodeOne equals the literal three-level delegation of the Go types. Correspondence: systematic single-edit "
+             "neighbourhoods of seeded vectors (incl. values built from a metric's own codes), random bytes, multi-byte input around length "
+             "thresholds; accept/reject compared with model and grammar oracle.",
     "ref": "5 (C07)", "note": _PNOTE, "technique": "Lean 4 proof by induction (all byte strings) + edit-neighbourhood correspondence"}
 TEXT["C08"] = {
     "level": "Theorem accept2_iff: for every level and every list of bytes the v2 model decoder accepts iff the string is canonical "
-             "(canon2); encode2_identity. Correspondence as C07 with v2 edits (group reorder, partial groups, prefixes).",
+             "(canon2); encode2_identity; delegation (literal three-level decodeOne = flattened). Correspondence as C07 with v2 edits (group "
+             "reorder, partial groups incl. all-Not-Defined ones, prefixes).",
     "ref": "5 (C08)", "note": _PNOTE, "technique": "Lean 4 proof by induction (all byte strings) + edit-neighbourhood correspondence"}
 TEXT["C09"] = {
     "level": "Theorems decode3_fields / decode2_fields (every field = value of the written code; unwritten v3 optional = Not Defined; v2 group "
              "emptiness), decode3_perm (any permutation of the tokens gives the identical object), decode3_X_omit, queries depend only on "
-             "version and fields. Correspondence: field/name dumps through the verif hooks on seeded accepted vectors.",
+             "version and fields. Correspondence: field dumps of seeded accepted vectors against the written tokens; all spellings of one token set "
+             "(orders, X written or omitted; exhaustively omitted-vs-X over every base vector at both higher decoders) compared among the "
+             "implementation's own results (fields, scores, severities).",
     "ref": "5 (C09)", "note": _PNOTE, "technique": "Lean 4 proof (fold invariant corollaries) + field-dump correspondence"}
 TEXT["C10"] = {
     "level": "Theorems encode3_canonical (= Spec canon3), decode3_encode_decode, encode2_identity, decode2_encode_decode for every accepted "
@@ -91,44 +96,55 @@ TEXT["C12"] = {
     "technique": "Lean 4 proof (totality, invalid => zero) + recover-guarded differential runs"}
 TEXT["C14"] = {
     "level": "Theorems view3 / view2: for every accepted string and every lower level, the view's encoding is the canonical lower-level vector, "
-             "a fresh lower-level decoder accepts it, and score, severity/validity and encoding coincide. Correspondence: accessor results vs "
-             "independent lower-level decode and vs the specification's lower-level values.",
+             "a fresh lower-level decoder accepts it, and score, severity/validity and encoding coincide; view3_tokens / view2_tokens: the same for "
+             "the input's own tokens of the level, in the order written. Correspondence: flags pv (fresh lower-level decoder on the view's "
+             "encoding), pw (on the input's tokens of that level, built from the text), vq (views unchanged after every query of the "
+             "higher level) on every accepted vector of the streams.",
     "ref": "5 (C14)", "note": _PNOTE, "technique": "Lean 4 proof (projection lemmas on the fold invariant) + accessor correspondence"}
 TEXT["C17"] = {
     "level": "Report.schema states field by field what each report path must show; theorems wiring / levels / version_field / paths_unique "
              "(every <Metric>Name/<Metric>Value path of the right embedded report shows that metric's title/value and nothing else does; "
              "Vector, scores and severities belong to their own level, the higher level shadowing the lower), score_rendering. The names "
              "tables underneath are regenerated from /repo on every run. Correspondence: every exported string field of every report "
-             "(embedded included, by reflection) on an all-values cover x levels x languages.",
+             "(embedded included, by reflection) on an all-values cover, every base vector at the environmental level, x levels x languages "
+             "and the no-option default; the schema is evaluated on the scores and severities the implementation itself reports for the object.",
     "ref": "5 (C17)", "note": _NOTE,
     "technique": "Lean 4 proof (decide on the declarative schema) + regenerated names tables + field-by-field report correspondence"}
 TEXT["C18"] = {
     "level": "The names tables are translated from /repo's Go source into Lean on every run (go/extract); theorems by kernel evaluation over the "
              "regenerated tables: all titles/headers and all defined values (incl. Not Defined) non-empty in English and Japanese, injective per "
              "metric and language, Modified = base names, key sets = defined values; for ALL integers out of range => Unknown/未定義 and for ALL "
-             "non-English, non-Japanese tags => English. Correspondence: exhaustive dump of the 52 functions x integers -3..10 x tags.",
+             "non-English, non-Japanese tags => English. If the translator does not understand the source the tables are rebuilt from the functions' "
+             "behaviour on -130..130 (recorded in the evidence). Correspondence: the 52 functions x integers -3..10 x tags, the tag space around "
+             "en/ja (all 2-letter tags, 3-letter neighbours, script/region/private-use/garbage; classified by x/text in the harness), and each "
+             "function as the first call in a fresh process.",
     "ref": "5 (C18)", "note": _NOTE,
     "technique": "Lean 4 proof over a model regenerated from the source by a translator + exhaustive behavioural dump"}
 TEXT["C19"] = {
     "level": "PARTIAL: text/template is a parameter of the model. Theorems about the export glue: nil / failing reader => invalid-template and no "
              "output; reader = string with the full content; nil report => null-pointer; engine failure => invalid-template and no output; "
              "otherwise exactly the engine's text; never output together with an error. The fidelity to text/template is checked by the "
-             "harness calling text/template directly on the same report for generated valid and invalid templates.",
+             "harness calling text/template directly on the same report for generated valid and invalid templates, long templates around buffer "
+             "sizes, repeated template texts, short-reading / failing / nil readers, and readers read only after further exports.",
     "ref": "5 (C19)", "note": _NOTE + " text/template is trusted as the oracle, not modelled.",
     "technique": "Lean 4 proof of the glue (engine abstract) + differential run against text/template"}
 TEXT["C15"] = {
     "level": "Theorems on the object-pool model: every scoring/severity/validity/encoding/string/accessor/report/export operation returns the "
              "object unchanged (queries_are_pure), repetition returns identical results (repeated_queries), what a history returns about an "
              "object depends only on the operations on that object (history_free, by induction over histories), interleaved queries do not "
-             "change what the decodes produce (twin). The model is functional, so the weight is on the tie: random histories in one process "
-             "compared op by op with the model and with a query-free twin.",
+             "change what the decodes produce (twin). The purity assumption is tied to the source by a translator: go/effects recomputes the write "
+             "sets of all exported functions from the SSA form on every run and code_writes_only_in_decode / code_effects_cover_model re-check "
+             "that only Decode writes (its receiver) and nothing writes package-level state. Behaviour: random histories in one process compared "
+             "on history facts (same operation, same object, no decode in between => same result; same vector => same answers across "
+             "histories and across fresh processes in opposite orders) and with a query-free twin.",
     "ref": "5 (C15)", "note": _NOTE,
     "technique": "Lean 4 proof by induction over operation histories + history/twin correspondence"}
 TEXT["C16"] = {
     "level": "PARTIAL: data races live in the Go memory model, which is not modelled. Proved on the abstract operations: under the property's "
              "discipline every interleaving returns to each goroutine what sequential execution returns (interleaving_eq_sequential, induction "
              "over schedules with a non-interference invariant), shared objects are never changed. Checked on the code: harness built with "
-             "-race, 16 goroutines over shared decoded objects of every level, results compared with sequential execution and the model.",
+             "-race, 16 goroutines over shared decoded objects of every level (random histories, export / report / decode storms), results compared "
+             "with sequential execution; no_shared_state_written re-checks the regenerated write-set table (go/effects) on every run.",
     "ref": "5 (C16)", "note": _NOTE + " The race detector and the executed schedules stand in for the memory model.",
     "technique": "Lean 4 proof by induction over schedules (non-interference) + race-detector runs compared with sequential execution"}
 NOT_YET = {}
